@@ -6,7 +6,7 @@ from . import yawgen as Y
 
 RULE = ("blocks with any flag byte, any signed 16-bit offset, 0..20 setpoints with durations from the boundary set and random "
         "(>= 1 ms; a separate class with 0 ms away from their instant) and changes incl. +-32767/-32768 (accumulated yaw beyond "
-        "+-3276.7 deg), trailing partial deltas; yaw at/around every boundary, interior, <= 0, +-inf; rate strictly inside "
+        "+-3276.7 deg), trailing partial deltas, blocks with more than 16383 and more than 65535 setpoints; yaw at/around every boundary, interior, <= 0, +-inf; rate strictly inside "
         "setpoints and after the end; total duration of a fresh player and of a player parked inside each setpoint. Non-trivial = at least one setpoint and one successful query.")
 EXPLANATION = "fields/durations exact; |yaw - exact| <= yaw_tol + 2^-22|exact|; |rate - exact| <= 2^-20 |exact| + 2^-18"
 ASSUMPTIONS = ["float32 rounding bound yaw_tol is an assumed bound with a safety factor 4"]
@@ -47,6 +47,15 @@ def cases(rng, tier):
                 hq += [rng.choice("yr") + fhex(t), "d00000000"]
             if hq:
                 yield ("yaw h %s %s" % (hexs(b), ",".join(hq)), "used-player-duration")
+    # blocks longer than 64 KiB (more than 16383 setpoints) and more than 65535 setpoints, probed in the tail
+    for k in range(6 if tier == "thorough" else 2):
+        n = rng.choice([16384, 16390, 17000]) if k % 2 == 0 else rng.choice([65536, 65540, 70000])
+        y = dict(flags=rng.choice([0, 1]), offset=rng.randint(-1800, 1800),
+                 deltas=[(rng.choice([5, 10, 20]), rng.choice([0, 1, -1, 30, -30, rng.randint(-50, 50)])) for _ in range(n)])
+        bs = Y.boundaries(y)
+        tail = [(bs[j] + bs[j + 1]) / 2000.0 for j in (n - 1, n - 2, n - 100, 16383 if n > 16384 else n - 3, n // 2)]
+        qs = ["y" + fhex(Y.f32(t)) for t in tail] + ["r" + fhex(Y.f32(t)) for t in tail[:3]] + ["d00000000", "y7f800000", "r7f800000", "y" + fhex(Y.f32(tail[0])), "d00000000"]
+        yield ("yaw %s %s %s" % ("h" if k % 2 else "f", hexs(Y.encode(y)), ",".join(qs)), "long-block")
     for b in ([], [1], [1, 2], [0, 0, 0], [1, 0x10, 0, 5]):
         yield ("yaw f %s y00000000,r3f800000" % hexs(b), "short")
 
